@@ -90,7 +90,7 @@ KNOWN_ATTRS = {
     'Discard': {'expr1', 'expr2', 'discard_left', 'program_id'},
     'Choice': {'exprs', 'program_id'},
     'Opt': {'expr', 'program_id'},
-    'List': {'expr', 'min_len', 'max_len', 'program_id', 'local_names'},
+    'List': {'expr', 'min_len', 'max_len', 'program_id', 'local_names', '_underflow'},
     'Expect': {'expr', 'program_id'},
     'ExpectNot': {'expr', 'program_id'},
     'Skip': {'exprs', 'program_id'},
